@@ -55,6 +55,8 @@ MENU = (
     ("proj", ("a", "c")),
     ("proj", ("b", "x")),
     ("proj", ()),
+    ("proj", ("a", "b", "c")),
+    ("proj", ("a", "b")),
     ("sel", spaces.P_B_EQ_1),
     ("sel", spaces.P_X_LT_0),
     ("sel", spaces.P_FALSE),
